@@ -23,14 +23,24 @@ pub struct DlogPt {
     /// None: generator; Some(i): pool subgroup point i
     pub base: Option<u8>,
     pub k: ScalarR,
+    /// Some(i): instead, the i-th subgroup point of corpus/banded-points.json (a coordinate in a numerically special
+    /// band - leading bits equal to those of q or zero, low 16 bits 0 / 1 / all ones); its scalar is the discrete log
+    #[serde(default)]
+    pub banded: Option<u16>,
 }
 
 fn dlog_strategy() -> BoxedStrategy<DlogPt> {
-    (proptest::option::weighted(0.7, 0u8..POOL_SUB as u8), scalar_strategy()).prop_map(|(base, k)| DlogPt { base, k }).boxed()
+    (proptest::option::weighted(0.7, 0u8..POOL_SUB as u8), scalar_strategy(), proptest::option::weighted(0.2, any::<u16>())).prop_map(|(base, k, banded)| DlogPt { base, k, banded }).boxed()
 }
 
 /// discrete log (mod r) w.r.t. the generator
 fn dlog<G: HasPool>(p: &DlogPt) -> Z {
+    if let Some(i) = p.banded {
+        let l = banded_list(G::NAME == "G2");
+        if !l.is_empty() {
+            return l[(i as usize * l.len()) >> 16].0.clone() % r();
+        }
+    }
     let a0 = match p.base {
         None => Z::one(),
         Some(i) => G::pool().sub[i as usize % POOL_SUB].0.clone(),
@@ -56,6 +66,12 @@ fn classify(c: &PairCase, a: &Z, b: &Z, info: &mut Info) {
     info.class(format!("a:{}", c.p.k.class()));
     if a.is_zero() || b.is_zero() {
         info.class("identity-operand");
+    }
+    if c.p.banded.is_some() {
+        info.class("g1-operand-with-banded-coordinate");
+    }
+    if c.q.banded.is_some() {
+        info.class("g2-operand-with-banded-coordinate");
     }
     if a.is_zero() && b.is_zero() {
         info.class("both-identity");
